@@ -1,0 +1,5 @@
+//go:build !verif
+
+package xsync
+
+func verifYield(point string) {}
